@@ -50,7 +50,7 @@ let () = iter_lines (fun line ->
   match split_ws line with
   | [op; _; _; _; kind; off; def; disc; doff; data; ptrs; arg] ->
     (try
-      if op = "size" then begin
+      if op = "size" || op = "lsize" then begin
         let n = { nd_id = Z0; nd_dwc = z_of_dec off; nd_pc = z_of_dec def; nd_isgroup = false;
                   nd_disccount = Z0; nd_discoff = Z0; nd_members = [] } in
         let (d, p) = gen_objsize n in
@@ -64,6 +64,7 @@ let () = iter_lines (fun line ->
           print_endline (match spec_get f s with Ok v -> "ok " ^ dec_of_z v | Panic -> "panic" | Escape -> "escape")
         | "set" | "new" ->
           print_endline (match spec_set f (z_of_dec arg) s with Ok s' -> show_struct s' | Panic -> "panic" | Escape -> "escape")
+        | "future" -> print_endline ("ok " ^ dec_of_z (spec_future f s))
         | "has" -> print_endline (if spec_has f s then "ok 1" else "ok 0")
         | "which" -> print_endline ("ok " ^ dec_of_z (spec_which f s))
         | _ -> print_endline "bad-case"
